@@ -188,7 +188,7 @@ func checkC20(c c20Case, _ *kit.Collector) kit.Result {
 		}
 		// the predicted platform reply is itself a well-formed frame for the same terminal
 		rep := term.ExpectedReply(uint16(i), hex.EncodeToString(data))
-		if rf, why := ref.Validate(rep); why != "" || !bytes.Equal(rf.PhoneBCD, f.PhoneBCD) || rf.Version2019 != f.Version2019 || int(rf.Serial) != i {
+		if rf, why := ref.Validate(rep); why != "" || !bytes.Equal(rf.PhoneBCD, f.PhoneBCD) || rf.Version2019 != f.Version2019 || int(rf.Serial) != i&0xffff {
 			res.Err = kit.Fail("%s: ExpectedReply gives %x (%s)", where, head(rep), why)
 			return res
 		}
